@@ -48,6 +48,15 @@ class FwdChild(FwdSchema):
     """Inherits every hook from FwdSchema."""
 
 
+class FwdSet(FwdSchema):
+    """Stores the substituted inner schema through the public Props.set (not Props.update)."""
+
+    def __substitute__(self, visitor, *, value, **kwargs):
+        _note("substitute", kwargs)
+        res = self.props.inner.__accept__(visitor, value=value, **kwargs)
+        return self.__class__(self.props.set("inner", res))
+
+
 class _Hooks:
     """Hooks supplied by a mixin."""
     __rv_inner__ = FwdSchema.__rv_inner__
@@ -64,7 +73,8 @@ class FwdMixed(CustomSchema[FwdProps], _Hooks):
 register_type("rv_fwd", FwdSchema)
 register_type("rv_fwd_child", FwdChild)
 register_type("rv_fwd_mixed", FwdMixed)
-VARIANTS = (FwdSchema, FwdSchema, FwdChild, FwdMixed)
+register_type("rv_fwd_set", FwdSet)
+VARIANTS = (FwdSchema, FwdSet, FwdChild, FwdMixed)
 _counter = [0]
 
 
@@ -75,3 +85,51 @@ def wrap(schema, n=1):
         _counter[0] += 1
         schema = cls(FwdProps().update(inner=schema))
     return schema
+
+
+class IntLikeProps(Props):
+    @property
+    def value(self):
+        return self.get("value")
+
+
+class IntLikeSchema(CustomSchema[IntLikeProps]):
+    """A custom type that validates by itself, in the style of the documentation: it builds its own result and errors
+    from the visitor's factories and the path it is given."""
+
+    def __call__(self, value):
+        return self.__class__(self.props.update(value=value))
+
+    def __represent__(self, visitor, *, indent=0, **kwargs):
+        from niltype import Nil
+        r = f"{visitor.name}.rv_intlike"
+        return r + (f"({self.props.value!r})" if self.props.value is not Nil else "")
+
+    def __generate__(self, visitor, **kwargs):
+        from niltype import Nil
+        return self.props.value if self.props.value is not Nil else visitor.random.random_int(0, 9)
+
+    def __validate__(self, visitor, *, value, path, **kwargs):
+        from niltype import Nil
+        from d42.validation.errors import TypeValidationError, ValueValidationError
+        result = visitor.make_validation_result()
+        if not isinstance(value, int) or isinstance(value, bool):
+            return result.add_error(TypeValidationError(path, value, int))
+        if self.props.value is not Nil and value != self.props.value:
+            result.add_error(ValueValidationError(path, value, self.props.value))
+        return result
+
+    def __substitute__(self, visitor, *, value, **kwargs):
+        from d42.substitution.errors import make_substitution_error
+        result = self.__accept__(visitor.validator, value=value)
+        if result.has_errors():
+            raise make_substitution_error(result, visitor.formatter)
+        return self.__class__(self.props.update(value=value))
+
+
+register_type("rv_intlike", IntLikeSchema)
+
+
+def intlike(value=None):
+    s = IntLikeSchema()
+    return s if value is None else s(value)
